@@ -66,6 +66,19 @@ CHECKS = {
     design_ref="DESIGN.md section 4 C05",
     note="Convergence is observed, not derived. Corrupted plants are shown to be rejected by TLC on every run (anti-vacuity).",
     technique="TLC-verified planted instances + TLC trace validation against the classification contract"),
+ "C09": dict(
+    category="model_checking",
+    text="SolverAPI.tla is a state machine over the global options dictionary: SetGlobal edits it, Call(entry, per-call dict, uses per-call) "
+         "must leave it unchanged and its outcome is specified (ValueError for an invalid effective value, otherwise the effective dictionary "
+         "is in force, per-call taking precedence). TLC checks it exhaustively and the graph is replayed against the ten real entry points: "
+         "exception class and timing (before any KKT call), option values in force (iteration hook), iterations <= maxiters, byte images of "
+         "inputs and dictionaries, and bit-identical results per (entry, options in force) whatever the history. SolverThreads.tla explores "
+         "all interleavings of two calls and a writer; its two assumptions about the code (options read before the first KKT call, no shared "
+         "writes) are checked on the implementation, and threaded runs are compared bit for bit with sequential ones.",
+    design_ref="DESIGN.md section 4 C09",
+    note="Bit-identity is sha1 over repr() of every float of the result. Thread schedules of the real interpreter are sampled "
+         "(setswitchinterval 1e-6, BLAS releases the GIL), all interleavings are explored only in the model.",
+    technique="TLA+ state machine + interleaving model (TLC exhaustive) -> per-transition replay into the real entry points; threaded runs vs sequential"),
  "C10": dict(
     category="fault_enumeration",
     text="SolverContract.tla states the containment contract (a pending KKT failure ends in the documented ValueError during start-up, "
